@@ -477,4 +477,32 @@ pub mod probe {
     unary_all!(AN; (Neg, neg), (Not, not));
     impl core::ops::Neg for Own { type Output = Own; fn neg(self) -> Own { Own } }
     impl core::ops::Not for Own { type Output = Own; fn not(self) -> Own { Own } }
+
+    /// `Tag<P>`: a zero-sized generic type that implements every derivable std trait and every operator in all
+    /// reference forms for EVERY `P` (also unsized / recursive ones): lets a field type mention `Self`
+    pub struct Tag<P: ?Sized>(pub core::marker::PhantomData<P>);
+    impl<P: ?Sized> Clone for Tag<P> { fn clone(&self) -> Self { Tag(core::marker::PhantomData) } }
+    impl<P: ?Sized> Copy for Tag<P> {}
+    impl<P: ?Sized> core::fmt::Debug for Tag<P> { fn fmt(&self, f: &mut core::fmt::Formatter<'_>) -> core::fmt::Result { f.write_str("Tag") } }
+    impl<P: ?Sized> Default for Tag<P> { fn default() -> Self { Tag(core::marker::PhantomData) } }
+    impl<P: ?Sized> PartialEq for Tag<P> { fn eq(&self, _: &Self) -> bool { true } }
+    impl<P: ?Sized> Eq for Tag<P> {}
+    impl<P: ?Sized> PartialOrd for Tag<P> { fn partial_cmp(&self, _: &Self) -> Option<core::cmp::Ordering> { Some(core::cmp::Ordering::Equal) } }
+    impl<P: ?Sized> Ord for Tag<P> { fn cmp(&self, _: &Self) -> core::cmp::Ordering { core::cmp::Ordering::Equal } }
+    impl<P: ?Sized> core::hash::Hash for Tag<P> { fn hash<H: core::hash::Hasher>(&self, _: &mut H) {} }
+    macro_rules! tag_forms {
+        ($(($Tr:ident, $f:ident, $TrA:ident, $fa:ident)),*) => {$(
+            impl<P: ?Sized> core::ops::$Tr<Tag<P>> for Tag<P> { type Output = Tag<P>; fn $f(self, _: Tag<P>) -> Tag<P> { self } }
+            impl<'a, P: ?Sized> core::ops::$Tr<&'a Tag<P>> for Tag<P> { type Output = Tag<P>; fn $f(self, _: &'a Tag<P>) -> Tag<P> { self } }
+            impl<'a, P: ?Sized> core::ops::$Tr<Tag<P>> for &'a Tag<P> { type Output = Tag<P>; fn $f(self, r: Tag<P>) -> Tag<P> { r } }
+            impl<'a, 'b, P: ?Sized> core::ops::$Tr<&'b Tag<P>> for &'a Tag<P> { type Output = Tag<P>; fn $f(self, _: &'b Tag<P>) -> Tag<P> { *self } }
+            impl<P: ?Sized> core::ops::$TrA<Tag<P>> for Tag<P> { fn $fa(&mut self, _: Tag<P>) {} }
+            impl<'a, P: ?Sized> core::ops::$TrA<&'a Tag<P>> for Tag<P> { fn $fa(&mut self, _: &'a Tag<P>) {} }
+        )*};
+    }
+    tag_forms!((Add, add, AddAssign, add_assign), (Sub, sub, SubAssign, sub_assign), (Mul, mul, MulAssign, mul_assign), (Div, div, DivAssign, div_assign), (Rem, rem, RemAssign, rem_assign), (BitAnd, bitand, BitAndAssign, bitand_assign), (BitOr, bitor, BitOrAssign, bitor_assign), (BitXor, bitxor, BitXorAssign, bitxor_assign), (Shl, shl, ShlAssign, shl_assign), (Shr, shr, ShrAssign, shr_assign));
+    impl<P: ?Sized> core::ops::Neg for Tag<P> { type Output = Tag<P>; fn neg(self) -> Tag<P> { self } }
+    impl<'a, P: ?Sized> core::ops::Neg for &'a Tag<P> { type Output = Tag<P>; fn neg(self) -> Tag<P> { *self } }
+    impl<P: ?Sized> core::ops::Not for Tag<P> { type Output = Tag<P>; fn not(self) -> Tag<P> { self } }
+    impl<'a, P: ?Sized> core::ops::Not for &'a Tag<P> { type Output = Tag<P>; fn not(self) -> Tag<P> { *self } }
 }
